@@ -49,7 +49,11 @@ def model_of(d):
     """Extract the M1 model of a real diagram from its public attributes."""
     boxes = []
     for b in d.boxes:
-        boxes.append((repr(b), str(getattr(b, 'name', 'diagram')), atoms_of(b.dom), atoms_of(b.cod),
+        data = getattr(b, "data", None)
+        name = str(getattr(b, 'name', 'diagram'))
+        if data is not None and box_kind(b) == "box":
+            name += "#" + " ".join(repr(data).split())[:80]      # equal name, other data: another generator
+        boxes.append((repr(b), name, atoms_of(b.dom), atoms_of(b.cod),
                       box_kind(b), bool(getattr(b, "is_dagger", False))))
     return (atoms_of(d.dom), tuple(boxes), tuple(d.offsets))
 
